@@ -92,8 +92,9 @@ def install(world):
         raises=[],
         ensures=[
             ("length", "length(result) == 4 + ceil_div(rows * cols, 7)", ["C12"]),
-            ("format", "result == hex2(cols) + hex2(rows) + ghost_body((rows * cols) // 7) + "
-                       "('' if (rows * cols) % 7 == 0 else chr(48 + ghost_partial((rows * cols) // 7, (rows * cols) % 7)))", ["C12"]),
+            ("format-whole-groups", "implies((rows * cols) % 7 == 0, result == hex2(cols) + hex2(rows) + ghost_body((rows * cols) // 7))", ["C12"]),
+            ("format-partial-group", "implies((rows * cols) % 7 != 0, result == hex2(cols) + hex2(rows) + ghost_body((rows * cols) // 7) + "
+                                     "chr(48 + ghost_partial((rows * cols) // 7, (rows * cols) % 7)))", ["C12"]),
         ],
         loops={
             0: LoopSpec(k="kx", invariants=[
@@ -121,7 +122,7 @@ def install(world):
         policy={TOHEX: "contract"},
         native={"imports": ["from robotools.evotools.commands import evo_get_selection"], "call": "evo_get_selection(rows, cols, selected)",
                 "check_raises": False, "returns_native": False,
-                "clause_text": {"length": "len(result) == 4 + -(-(rows * cols) // 7)", "format": "int(result[0:2], 16) == cols and int(result[2:4], 16) == rows and len(result[0:4]) == 4 and ''.join(ch for ch in result[:4] if ch in '0123456789ABCDEF') == result[:4] and " + "all(((ord(result[4 + k // 7]) - 48) >> (k % 7)) & 1 == int(selected[k % rows][k // rows]) for k in range(rows * cols)) and all(((ord(result[4 + k // 7]) - 48) >> (k % 7)) & 1 == 0 for k in range(rows * cols, 7 * (len(result) - 4)))"}},
+                "clause_text": {"length": "len(result) == 4 + -(-(rows * cols) // 7)", "format-whole-groups": "True", "format-partial-group": "int(result[0:2], 16) == cols and int(result[2:4], 16) == rows and len(result[0:4]) == 4 and ''.join(ch for ch in result[:4] if ch in '0123456789ABCDEF') == result[:4] and " + "all(((ord(result[4 + k // 7]) - 48) >> (k % 7)) & 1 == int(selected[k % rows][k // rows]) for k in range(rows * cols)) and all(((ord(result[4 + k // 7]) - 48) >> (k % 7)) & 1 == 0 for k in range(rows * cols, 7 * (len(result) - 4)))"}},
     ))
 
 
